@@ -46,6 +46,46 @@ CHECKS["C16"] = dict(
    technique="Coq proof over regenerated tables (vm_compute for finite parts, structural for the fallback) + differential correspondence",
    ref="§5 C16")
 
+RX_NOTE = ("Trusted: Coq kernel; hand-written discrete model (squelch, framer, assembler, receiver glue) tied to the code by replaying the "
+           "hook-recorded per-symbol tick stream of real runs through the extracted model (event lists must be equal, timestamps included) "
+           "and by differential execution of each component on scripts; the float DSP above the tick is an oracle; harness, synthesiser, "
+           "Python oracles. No axioms.")
+CHECKS["C04"] = dict(
+   text="Machine-checked invariant proof over ALL item streams (= all audio, whatever the DSP makes of it): every StartOfMessage "
+        "event of a fresh receiver is combine() of at most three consecutive bursts reported before it (hence, by C03's theorem, "
+        "backed byte by byte by two agreeing bursts or the majority of three); no bursts or a lone burst can never give a "
+        "StartOfMessage. The EndOfMessage half is checked by the oracle on every trace (timer theorems are in C09). Correspondence: "
+        "valid/lossy/corrupted transmissions and near-miss audio through the real receiver, replayed through the model.",
+   note=RX_NOTE + " Hypothesis: frame_prefix_max_errors <= 7 (builder clamp).",
+   technique="Coq invariant proof (induction over item streams) + tick-trace replay correspondence + justification oracle",
+   ref="§5 C04")
+CHECKS["C07"] = dict(
+   text="Machine-checked proof about the framer automaton for all byte streams and all budgets: every burst is a contiguous, "
+        "unmodified run of the (zero-padded) input starting at the FIRST window within the prefix budget, ending at the maximum "
+        "length or just before the byte that exceeds the invalid budget; one burst per session; abandon after the search length; "
+        "no zero padding once four preamble bytes open the session. Bit-level alignment is tied by differential execution of the "
+        "squelch model and receiver-level runs at all 16 half-symbol phases (not yet a theorem).",
+   note=RX_NOTE,
+   technique="Coq invariant proof over byte streams + exhaustive reduced-alphabet differential correspondence + reference automaton",
+   ref="§5 C07")
+CHECKS["C09"] = dict(
+   text="Machine-checked proof on the discrete model for all item streams: every reported burst has 4..252 bytes; a StartOfMessage "
+        "event arms the 135 s timer; an armed, elapsed timer fires on any symbol that does not deliver a burst; two consecutive "
+        "symbols never both deliver a burst; the timer is only cleared by an EndOfMessage or re-armed by a newer StartOfMessage. "
+        "Partial: that symbols keep arriving (timing loop) is DSP, validated by >= 140 s runs of ten kinds of following audio. "
+        "Two genuine defects were repaired (fix: commits aeba0f2, a2bb3e5).",
+   note=RX_NOTE,
+   technique="Coq step/invariant proofs + long-run tick-trace replay correspondence + closure oracle",
+   ref="§5 C09")
+CHECKS["C13"] = dict(
+   text="Machine-checked refinement proof: one next() call delivers exactly the next event of the single pass; any partition into "
+        "chunks drained by any number of iterator bindings yields the same events, order, timestamps and final state; an event's "
+        "timestamp equals the samples consumed; timestamps never decrease. Link lifecycle: oracle on every trace; the immediate "
+        "re-sync edge burst->searching is a known finding. Correspondence: five call schedules per audio case on the real receiver.",
+   note=RX_NOTE,
+   technique="Coq refinement proof (process/sched vs run_core) + schedule-differential on the implementation + trace replay",
+   ref="§5 C13")
+
 NOT_APPLICABLE = {}
 
 def main():
